@@ -44,7 +44,7 @@ type Prog struct {
 	SPkg   *ssa.Package
 	CG     *callgraph.Graph
 
-	srcFuncs  []*ssa.Function            // functions (incl. closures, methods) of the target package
+	srcFuncs  []*ssa.Function                         // functions (incl. closures, methods) of the target package
 	siteOut   map[ssa.CallInstruction][]*ssa.Function // resolved callees per call site (VTA)
 	fnByName  map[string]*ssa.Function
 	fileCache map[string][]byte
